@@ -75,6 +75,16 @@ func section(indent, name, kind string, d []string, dir2 []string) string {
 		return in + name + ":\n" + in + "  ignore:\n" + in + "    - " + dirStr(d) + "\n"
 	case "b1":
 		return in + name + ":\n" + in + "  use:\n" + in + "    - WIRE\n"
+	case "b2":
+		return in + name + ":\n" + in + "  use:\n" + in + "    - FILE\n" + in + "  ignore:\n" + in + "    - " + joinDir(d, "ign") + "\n" +
+			in + "  ignore_only:\n" + in + "    FIELD_NO_DELETE:\n" + in + "      - " + joinDir(d, "legacy") + "\n"
+	case "b2top":
+		m2 := dir2
+		if len(dir2) == 1 && dir2[0] == "-" {
+			m2 = []string{"b"}
+		}
+		return in + name + ":\n" + in + "  use:\n" + in + "    - FILE\n" + in + "  ignore:\n" + in + "    - " + joinDir(m2, "ign2") + "\n" +
+			in + "  ignore_only:\n" + in + "    FIELD_NO_DELETE:\n" + in + "      - " + joinDir(m2, "legacy") + "\n"
 	case "c2top":
 		m2 := dir2
 		if len(dir2) == 1 && dir2[0] == "-" {
